@@ -162,6 +162,8 @@ STRUCT = {
     'eof-inside-end-delimiter-1': ["A\n", O('t', RT), "\nq", H(1, 'txt'), "\n", ('pc', 't', 1)],
     'eof-inside-end-delimiter-2': ["A\n", O('m', RX), H(1, 'ws'), "q\n", ('pc', 'm', 2)],
     'eof-inside-end-delimiter-4': ["A\n", O('t', RT), "\nq", H(1, 'txt'), "\n", ('pc', 't', 4)],
+    # an indented unwrap block whose body has a line starting at the left margin with blanks inside its text (columns of the dedent)
+    'unwrap-body-line-left-of-tag-with-inner-blanks': ["A\n  ", O('m', RX + ' unwrap-block'), "\n  {\n    k;\n", H(1, 'ind'), "x", H(3, 'ind'), "= 1;\n    j;\n  }\n  ", C('m'), "\nB\n"],
     'unwrap-adjacent-lines': [H(1), "A ", O('m', RX + ' unwrap-block'), H(1, 'ind'), "\n", H(1, 'ind'), C('m'), " B", H(1)],
 }
 
@@ -421,6 +423,8 @@ def unwrap_doc(p):
     tpl = []
     if p.get('pre', 1):
         tpl += [g('pre_i', 'ind'), "A", g('pre_t', 'nb'), "\n"]
+    for wt, wa in p.get('wrap', []):   # enclosing elements (skipped / pending / unregistered), each tag alone on its line
+        tpl += [g('wrap_i', 'ind'), O(wt, wa), "\n"]
     tpl += [g('tag_i', 'ind'), O(p.get('tag', 'm'), p.get('attrs', RX + ' unwrap-block')), "\n"]
     for j in range(k):
         kind = p.get('body', {}).get(str(j), 'code')
@@ -433,6 +437,8 @@ def unwrap_doc(p):
         else:
             tpl += [g(f'b{j}_i', 'ind'), g(f'b{j}_s', 'nb'), "L%d" % j, g(f'b{j}_t', 'nb'), "\n"]
     tpl += [g('ctag_i', 'ind'), C(p.get('tag', 'm'))]
+    for wt, wa in reversed(p.get('wrap', [])):
+        tpl += ["\n", g('wrap_i', 'ind'), C(wt)]
     if p.get('post', 1):
         tpl += ["\n", g('post_i', 'ind'), "B", g('post_t', 'nb')]
     if p.get('final_nl', 1):
@@ -449,8 +455,9 @@ def c11_unwrap(ctx, p):
     B = Blanks(ctx, src, parts)
     ready, pending, allel = evaluate(src, parts, cfg)
     # k counts *lines* between the tag lines (a nested 3-line element contributes 3)
-    o = [x for x in parts if x['kind'] == 'open'][0]
-    c = [x for x in parts if x['kind'] == 'close'][-1]
+    nw = len(p.get('wrap', []))
+    o = [x for x in parts if x['kind'] == 'open'][nw]
+    c = [x for x in parts if x['kind'] == 'close'][-1 - nw]
     nlines = sum(1 for b in src[o['end']:c['start']] if isinstance(b, int) and b == 10) - 1
     ctx.cover('exactly-two-lines-between' if nlines == 2 else ('fewer-than-two-lines' if nlines < 2 else 'three-or-more-lines'))
     if any(v == 'ready' for v in p.get('body', {}).values()):
@@ -493,6 +500,10 @@ def c11_jobs(tier, seed):
         jobs.append(dict(harness='c11_unwrap', label=f'unwrap k={k} closing tag at end of input', params=dict(k=k, post=0, final_nl=0, holes=dict(b0_t=2, ctag_i=2))))
     for tag, attrs in (('t', RT + ' unwrap-block'), ('m', PN + ' unwrap-block')):
         jobs.append(dict(harness='c11_unwrap', label=f'unwrap k=3 tag={tag} {attrs}', params=dict(k=3, tag=tag, attrs=attrs, holes=hole_sets[0])))
+    # the unwrap element nested in skipped / pending / unregistered elements (each removes nothing on its own account)
+    for wrap in ([('m', SK)], [('t', PT)], [('u', '')], [('m', SK), ('t', PT)], [('t', RT + ' skip'), ('u', "x='1'")]):
+        for k in (1, 3):
+            jobs.append(dict(harness='c11_unwrap', label=f'unwrap k={k} inside {wrap}', params=dict(k=k, tag='t', attrs=RT + ' unwrap-block', wrap=wrap, holes=dict(wrap_i=1, tag_i=2, b1_i=2))))
     return jobs
 
 
@@ -684,6 +695,8 @@ def c12_doc(p):
     for j, kind in enumerate(p['body']):
         if kind == 'code':
             tpl += [f(f'b{j}'), g(f'b{j}'), g(f'b{j}t', 'nb'), "L%d\n" % j]
+        elif kind == 'padded':   # a line that starts at the left margin (left of an indented tag) and has a run of blanks inside its text
+            tpl += [g(f'b{j}'), "x", g(f'b{j}p'), "= 1;\n"]
         elif kind == 'blank':
             tpl += [f(f'b{j}'), g(f'b{j}'), "\n"]
         elif kind == 'ready':  # nested ready default-strategy element (three lines)
@@ -782,7 +795,7 @@ def c12_dedent(ctx, p):
         raise PathAbort()  # a different set of surviving lines is C11 / C13's subject, not a dedent question
     okv = [len(g_) == len(x) and b_and(same(a, b) for a, b in zip(g_, x)) for g_, x in zip(got, exp_lines)]
     ctx.check(b_and(okv), f'dedent differs: got {show_lines(got)} expected {show_lines(exp_lines)}',
-              (lambda: 'unwrap-block-on-first-line-wrong-dedent' if all(b != 10 for b in src[1:unwraps[0]['open']['start']]) else 'dedent-mismatch'))
+              (lambda: 'unwrap-block-on-first-line-wrong-dedent' if unwraps[0]['open']['start'] > 0 and all(b != 10 for b in src[:unwraps[0]['open']['start']]) else 'dedent-mismatch'))
 
 
 def c12_jobs(tier, seed):
@@ -808,6 +821,10 @@ def c12_jobs(tier, seed):
                 J(f'dedent body={body} fixed={fname} holes={hs}', fixed=fx, holes=hs, body=body)
             if 'unwrap' in body or 'ready' in body:
                 J(f'dedent body={body} fixed={fname} removable element on the opening wrapper line', fixed=fx, holes=dict(b0=1, b2=2) if len(body) > 2 else dict(b0=1), body=body, w1_child=1)
+    # lines left of the tag column whose text contains blanks in the columns the dedent removes from deeper lines
+    for fname, fixed in (('nested2sp', ind_nested), ('tabs', tabs)):
+        for hs in (dict(b1=1, b1p=3), dict(b1p=2, tag=1), dict(b1p=4), dict(b1=1, b1p=1, b0=1)):
+            J(f'dedent body with a padded line left of the tag, fixed={fname} holes={hs}', fixed=fixed, holes=hs, body=['code', 'padded', 'code'])
     for fname, fixed in (('2sp', ind2), ('nested2sp', ind_nested)):
         fx = dict(fixed)
         for j in range(4):
